@@ -1105,6 +1105,10 @@ impl<'a> Gen<'a> {
             let line = self.op(k, drain_phase);
             // (never a fused callback under an iterator that is dropped while unwinding:
             // a second panic inside its Drop is an abort by the language's rules)
+            // the line is run from a destructor while an unrelated panic unwinds
+            if self.rng.pct(4) {
+                out.push_str("unwinding ");
+            }
             if self.p.fuse && !line.contains(" panic ") && self.rng.pct(FUSE_PCT) {
                 let _ = write!(out, "{} {} ", if self.p.hfuse { "hfuse" } else { "fuse" }, self.rng.below(if self.p.hfuse { 3 * FUSE_MAX } else { FUSE_MAX }));
             }
@@ -1138,8 +1142,8 @@ fn gen_random(args: &[String]) -> Result<(), String> {
         p => return Err(format!("--prios `{p}`")),
     };
     let hashmode: u32 = f.get("hashmode", 0)?;
-    if hashmode > 3 {
-        return Err("--hashmode is 0..3".into());
+    if hashmode > 4 {
+        return Err("--hashmode is 0..4".into());
     }
     let disputed = f.get("disputed", 1u32)? != 0;
     let mut mult: Vec<(OpK, u32)> = vec![];
